@@ -135,10 +135,10 @@ Print Assumptions C12_holds_fresh_sound.
 Theorem C12_holds_view_sound :
   forall (T : Type) (rare : T -> Z -> Z -> bool) file anc legacy steps,
   holds_view_gen rare file anc legacy steps = true ->
-  forall p t v fr t' v',
-    In (XOn p, GO t (OView v), fr) steps ->
-    a_step gtab gview g_ids1 g_ids2 g_sub1 g_sub2 t (g_interp T rare file anc legacy p) = Ok (t', OView v') ->
-    v = v'.
+  forall p t r fr t' r',
+    In (XOn p, GO t r, fr) steps -> r <> ONone ->
+    a_step gtab gview g_ids1 g_ids2 g_sub1 g_sub2 t (g_interp T rare file anc legacy p) = Ok (t', r') ->
+    r = r'.
 Proof. exact @holds_view_sound. Qed.
 Print Assumptions C12_holds_view_sound.
 
